@@ -517,6 +517,10 @@ def get_global_filters(context, until_position, origin_scope):
             until_position = None
 
         context = context.parent_context
+        # A class body is only visible from within that class body itself, not
+        # from the scopes nested in it (methods skip it already).
+        while context is not None and context.is_class():
+            context = context.parent_context
 
     b = next(base_context.inference_state.builtins_module.get_filters(), None)
     assert b is not None
